@@ -17,6 +17,12 @@
 #include "OffsetDateTime.h"
 #include "ZoneProcessor.h"
 
+#if ACE_TIME_VERIF_HOOKS
+// Verification hook (off unless built with -DACE_TIME_VERIF_HOOKS=1): counts
+// the transitions that addTransition() silently drops for lack of space.
+extern "C" unsigned long ace_time_verif_basic_dropped;
+#endif
+
 #define ACE_TIME_BASIC_ZONE_PROCESSOR_DEBUG 0
 
 class BasicZoneProcessorTest_priorYearOfRule;
@@ -754,6 +760,9 @@ class BasicZoneProcessor: public ZoneProcessor {
       // history. But it seems like too much work right now to try to dig that
       // out, just to implement the explicit check for kMaxCacheEntries. It
       // would mean maintaining another version of zone_specifier.py.
+#if ACE_TIME_VERIF_HOOKS
+      if (mNumTransitions >= kMaxCacheEntries) ace_time_verif_basic_dropped++;
+#endif
       if (mNumTransitions >= kMaxCacheEntries) return;
 
       // insert new element at the end of the list
